@@ -194,6 +194,9 @@ pub struct CaseSpec {
     pub sched_seed: u64,
     /// Harness sleeps (ms) at a quiescent point with this percent chance.
     pub sched_sleep_pct: u8,
+    /// Percent chance, per quiescent point, that the scheduler releases several gates at once
+    /// (several user futures become ready between two polls and complete in the same poll round).
+    pub sched_multi_pct: u8,
     pub profile: String,
 }
 
@@ -414,16 +417,16 @@ impl Profile {
             // retry option resolution end-to-end: tags on all levels + cli + builder
             "c18" => Profile {
                 name: "c18",
-                max_features: 2,
+                max_features: 3,
                 max_steps: 2,
                 p_retry_tag: 50,
                 p_cfg_retry: 70,
                 p_filter: 50,
                 p_fail_unit: 45,
                 p_delay: 8,
-                p_ff: 10,
+                p_ff: 25,
                 p_lazy: 10,
-                p_parse_err: 0,
+                p_parse_err: 15,
                 ..g
             },
             // tracing attribution: many concurrent scenarios logging around await points
@@ -796,6 +799,10 @@ pub fn generate(profile: &Profile, seed: u64, index: u64) -> CaseSpec {
         policy,
         sched_seed: r.next(),
         sched_sleep_pct: if pct(&mut r, profile.p_sleep) { 30 } else { 0 },
+        sched_multi_pct: {
+            let mut r3 = Rng::new(seed.wrapping_mul(0x2545_F491).wrapping_add(index) ^ 0xB0B);
+            if r3.chance(1, 4) { 50 } else { 0 }
+        },
         profile: profile.name.to_owned(),
     }
 }
